@@ -448,10 +448,35 @@ func sxPathsInline(fn *ssa.Function, tag string, inline func(*ssa.Function) bool
 						res.Pruned++
 						continue
 					}
+					// facts implied by library contracts (strings.Cut: !found ⇒ after == "")
+					implied := sxImplied(cond, key, fv)
+					conflict := false
+					for _, f := range implied {
+						if old, ok := s.factIdx[f.Key]; ok && old != f.Val {
+							conflict = true
+						}
+					}
+					for k2, v2 := range s.factIdx {
+						for _, f := range sxImpliedBy(s, k2, v2) {
+							if f.Key == key && f.Val != fv {
+								conflict = true
+							}
+						}
+					}
+					if conflict {
+						res.Pruned++
+						continue
+					}
 					ns := s.clone()
 					if _, ok := ns.factIdx[key]; !ok {
 						ns.factIdx[key] = fv
 						ns.facts = append(ns.facts, sxFact{Key: key, Val: fv, Cond: cond})
+					}
+					for _, f := range implied {
+						if _, ok := ns.factIdx[f.Key]; !ok {
+							ns.factIdx[f.Key] = f.Val
+							ns.facts = append(ns.facts, f)
+						}
 					}
 					runBlock(ns, fr, b.Succs[i], b, k)
 				}
@@ -525,6 +550,52 @@ func sxPathsInline(fn *ssa.Function, tag string, inline func(*ssa.Function) bool
 		}
 	})
 	return res
+}
+
+// sxImplied: further facts that follow from (cond == fv) by the documented
+// contract of the standard library.  strings.Cut(s, sep): found == false
+// implies after == "" (and before == s).
+func sxImplied(cond sxVal, key string, fv bool) []sxFact {
+	for {
+		op, ok := cond.(sxOp)
+		if !ok || op.op != "!" {
+			break
+		}
+		cond = op.args[0]
+	}
+	cl, ok := cond.(sxCall)
+	if !ok || cl.rec.Name != "strings.Cut" || cl.idx != 2 || fv || key != cl.key() {
+		return nil
+	}
+	after := sxCall{cl.rec, 1}
+	return []sxFact{{Key: sxEqKey(after, sxStr("")), Val: true, Cond: sxOp{"==", []sxVal{after, sxStr("")}}}}
+}
+
+// sxImpliedBy: the converse direction for facts already recorded: a known
+// after != "" of strings.Cut implies found == true.
+func sxImpliedBy(s *sxState, key string, val bool) []sxFact {
+	if val {
+		return nil
+	}
+	for _, f := range s.facts {
+		if f.Key != key {
+			continue
+		}
+		op, ok := f.Cond.(sxOp)
+		for ok && op.op == "!" {
+			op, ok = op.args[0].(sxOp)
+		}
+		if !ok || (op.op != "==" && op.op != "!=") {
+			return nil
+		}
+		for i := 0; i < 2; i++ {
+			cl, isCall := op.args[i].(sxCall)
+			if isCall && cl.rec.Name == "strings.Cut" && cl.idx == 1 && sxSame(op.args[1-i], sxStr("")) {
+				return []sxFact{{Key: sxCall{cl.rec, 2}.key(), Val: true}}
+			}
+		}
+	}
+	return nil
 }
 
 // sxCondKey canonicalises a branch condition: returns the fact key of the
